@@ -94,6 +94,26 @@ third batch (extend_types, cell_is_orthorhombic, the near-window guard and box t
   dispatch slices (`sites_only=True`)     `with cm as x:` is its body (x opaque); the result is the source text of the function
                                           whose value is returned (`return g(…)` or `x = g(…); return x`), `none` = raise
 
+fourth batch (the lines the repairs of 2026-09-29 introduced; uc_neighbor_offsets)
+  `{f(x) for x in xs}`                    the list of the values, typed as a set (a raising element: `Py.listMapM?`)
+  `{k: v for a, b in d.items()}`          `Py.dictComp` / `Py.dictCompM?`: a fold of `d[k] = v` (`Py.dictInsert`: an existing key keeps
+                                          its position and takes the new value)
+  `sorted(xs)`, `sorted(xs, reverse=True)` on ints: `Py.sortedAsc` / `Py.sortedDesc` (insertion sort; a set is reduced by `dedup` first)
+  `xs.sort(key=lambda m: e)`              `let xs := Py.sortByKey xs (fun m => e)`: stable, ascending integer key
+  `a, b = s.split(c, 1)`                  `Py.strSplit1? s c` (text before / after the FIRST c; `none` = ValueError); `s.strip()`
+  `"c" in s` (one character)              `List.contains s.toList 'c'`
+  naturals: `a - b` is an `Int`; lists: `xs + ys` is `xs ++ ys`, `xs * n` is `Py.listRepeat xs n` (none for n ≤ 0); `tuple(x)`
+  `len(other)` (`objattrs … "__len__"`)   a parameter `other_len`; a function nested in a METHOD (`cls` + `inner`)
+  static arrays also: `np.ceil` (`Py.ceil`, an Int), `np.maximum` / `np.minimum` with broadcasting, element-wise `/` (numpy does
+                                          not raise on 0), `np.meshgrid` (numpy's default `xy` indexing), `.T` (all axes reversed),
+                                          `.reshape` with one `-1`, `np.matmul(matrix, vector)`, `np.array(x, dtype=int|float)`
+  fragments also: `("assign", "x containing text")`, then `("callarg", f)` = the first argument of the unique call of `f` inside the
+                                          assigned value, `("eltcallee", None)` = the NAME of the function a comprehension applies;
+                                          `("stmt", "text then x")` = the value of x right after the unique statement containing
+                                          text; entering the branch of `if x is (not) None` gives an optional parameter its value;
+                                          `inputs={…}`: the fragment is translated for GIVEN values of these locals (the statements
+                                          before it are not read)
+
 sequencing slices (`trace=True`, used for mofun_cli)
   The body must consist of simple statements (expression statements, assignments, assert, del) and `if`s over them; no
   loops, no return.  The translation is `List String`: the simple statements that are executed, in program order, as
@@ -360,6 +380,10 @@ class Fn:
             items = [self.coerce(node, x, NUM) for x in v.items]
             binds, refs = _join(*items)
             return V("(⟨%s⟩ : Vec3)" % ", ".join(x.term for x in items), VEC3, v.binds + binds, refs)
+        if v.items is not None and ty == LIST(VEC3) and len(shape_of(v)) == 2 and shape_of(v)[1] == 3:
+            rows = [self.coerce(node, x, VEC3) for x in v.items]
+            binds, refs = _join(*rows)
+            return V("[%s]" % ",\n   ".join(x.term for x in rows), ty, v.binds + binds, refs)
         if v.items is not None and ty == MAT3 and shape_of(v) == (3, 3):
             rows = [self.coerce(node, x, VEC3) for x in v.items]
             binds, refs = _join(*rows)
@@ -524,7 +548,27 @@ class Fn:
             return V.opaque()
         self.fail(node, "name %s is not a parameter, a local or a translated table" % node.id)
 
+    def at(self, v, idx):
+        for i in idx:
+            v = v.items[i]
+        return v
+
+    def build(self, shape, f, idx=()):
+        """the static array of the given shape whose element at index tuple t is f(t)"""
+        if len(idx) == len(shape):
+            return f(idx)
+        return self.mkstatic([self.build(shape, f, idx + (i,)) for i in range(shape[len(idx)])])
+
     def ex_Attribute(self, node, env, want):
+        if node.attr == "T":
+            v = self.ex(node.value, env)
+            if v.ty == OPAQUE:
+                return v
+            if v.np and v.items is not None:
+                sh = shape_of(v)
+                r = self.build(tuple(reversed(sh)), lambda t: self.at(v, tuple(reversed(t))))
+                r.binds = v.binds + r.binds
+                return r
         if isinstance(node.value, ast.Name) and node.value.id == "self" and "self" in env and node.attr in self.cfg.get("attrs", {}):
             return env["self." + node.attr]
         if isinstance(node.value, ast.Name) and node.value.id in self.cfg.get("objattrs", {}) and \
@@ -638,6 +682,8 @@ class Fn:
             elif isinstance(b.ty, tuple) and b.ty[0] == "dict":
                 a = self.coerce(node, a, b.ty[1])
                 term = "(Py.dictHas %s %s)" % (b.term, a.term)
+            elif b.ty == STR and a.ty == STR and re.fullmatch(r'"(?:[^"\\]|\\.)"', a.term) and len(a.term) == 3:
+                term = "(List.contains (String.toList %s) '%s')" % (b.term, a.term[1])     # one-character substring
             elif isinstance(b.ty, tuple) and b.ty[0] in ("list", "set"):
                 ety = self.unify(node, [a.ty, b.ty[1]])
                 a, b = self.coerce(node, a, ety), self.coerce(node, b, (b.ty[0], ety))
@@ -683,12 +729,30 @@ class Fn:
         if OPAQUE in (a.ty, b.ty):
             return V.opaque()
         if (a.np and a.items is not None) or (b.np and b.items is not None):
-            r = self.elementwise(node, a, b, lambda x, y: self.binop_scalar(node, x, y))
+            self.np_div = True
+            try:
+                r = self.elementwise(node, a, b, lambda x, y: self.binop_scalar(node, x, y))
+            finally:
+                self.np_div = False
             r.binds = a.binds + b.binds + r.binds
             return r
         return self.binop_scalar(node, a, b)
 
     def binop_scalar(self, node, a, b):
+        def islist(v):
+            return isinstance(v.ty, tuple) and v.ty[0] == "list" and not v.np
+        if isinstance(node.op, ast.Mult) and islist(a) and b.ty in (NAT, INT, INTLIT):
+            # python `xs * n`: n copies (none for n <= 0)
+            if a.items is not None and a.term == "?":
+                a = self.coerce(node, a, LIST(self.unify(node, [x.ty for x in a.items])))
+            n = self.coerce(node, b, INT)
+            binds, refs = _join(a, n)
+            return V("(Py.listRepeat %s %s)" % (a.term, n.term), a.ty, binds, refs)
+        if isinstance(node.op, ast.Add) and islist(a) and islist(b):
+            ety = self.unify(node, [a.ty[1], b.ty[1]])
+            a, b = self.coerce(node, a, LIST(ety)), self.coerce(node, b, LIST(ety))
+            binds, refs = _join(a, b)
+            return V("(%s ++ %s)" % (a.term, b.term), LIST(ety), binds, refs)
         ty = self.unify(node, [a.ty, b.ty])
         if isinstance(ty, tuple) and ty[0] == "set":
             fn = {ast.BitAnd: "Py.setInter", ast.BitOr: "Py.setUnion", ast.Sub: "Py.setDiff"}.get(type(node.op))
@@ -708,10 +772,12 @@ class Fn:
             return V(r.term, INT, binds + r.binds, r.refs)
         if isinstance(node.op, ast.Div):
             ty = NUM
-            if b.ty not in (INTLIT, DECLIT) or (b.lit if b.ty == INTLIT else b.lit[0]) == 0:
+            if getattr(self, "np_div", False):
+                pass                      # numpy float division does not raise (x / 0 is inf or nan: outside the rational model)
+            elif b.ty not in (INTLIT, DECLIT) or (b.lit if b.ty == INTLIT else b.lit[0]) == 0:
                 self.fail(node, "division by something that is not a non-zero literal (ZeroDivisionError is not modelled)")
         if isinstance(node.op, ast.Sub) and ty == NAT:
-            self.fail(node, "subtraction of naturals (python ints may become negative)")
+            ty = INT                      # python ints: the difference of two naturals may be negative
         sym = {ast.Add: "+", ast.Sub: "-", ast.Mult: "*", ast.Div: "/"}.get(type(node.op))
         if sym is None:
             self.fail(node, "operator %s" % type(node.op).__name__)
@@ -840,6 +906,45 @@ class Fn:
             return V(r.term, LIST(body.ty), src.binds + r.binds, r.refs)
         return V("(List.map (fun %s => %s) %s)" % (nm, body.term, src.term), LIST(body.ty), src.binds, (body.refs - {nm}) | src.refs)
 
+    def ex_SetComp(self, node, env, want):
+        """`{f(x) for x in xs}`: the list of the values (set semantics live in the operations applied to it)"""
+        v = self.ex_ListComp(ast.copy_location(ast.ListComp(elt=node.elt, generators=node.generators), node), env, want)
+        if v.ty == OPAQUE:
+            return v
+        return V(v.term, SET(v.ty[1]), v.binds, v.refs)
+
+    def ex_DictComp(self, node, env, want):
+        """`{k(a, b): v(a, b) for a, b in d.items()}` over an insertion-ordered dict: a fold of `d[k] = v`"""
+        if len(node.generators) != 1 or node.generators[0].ifs or node.generators[0].is_async:
+            self.fail(node, "comprehension shape")
+        g = node.generators[0]
+        if not (isinstance(g.iter, ast.Call) and isinstance(g.iter.func, ast.Attribute) and g.iter.func.attr == "items" and not g.iter.args):
+            self.fail(node, "dict comprehension over something that is not d.items()")
+        d = self.ex(g.iter.func.value, env)
+        if d.ty == OPAQUE:
+            return V.opaque()
+        if not (isinstance(d.ty, tuple) and d.ty[0] == "dict" and isinstance(g.target, ast.Tuple) and len(g.target.elts) == 2 and
+                all(isinstance(e, ast.Name) for e in g.target.elts)):
+            self.fail(node, "dict comprehension over %s" % (d.ty,))
+        e2 = dict(env)
+        names = [self.lname(e.id) for e in g.target.elts]
+        for e, nm, ty in zip(g.target.elts, names, d.ty[1:]):
+            e2[e.id] = V(nm, ty, (), {nm})
+        k, v = self.ex(node.key, e2), self.ex(node.value, e2)
+        if OPAQUE in (k.ty, v.ty):
+            return V.opaque()
+        binds = k.binds + v.binds
+        refs = set(k.refs) | set(v.refs)
+        for _, _, r_ in binds:
+            refs |= r_
+        refs -= set(names) | {b[0] for b in binds}
+        pair = V("(%s, %s)" % (k.term, v.term), None, binds)
+        ty = DICT(k.ty, v.ty)
+        if binds:
+            r = self.rebind("(Py.dictCompM? %s (fun (%s, %s) => %s))" % (d.term, names[0], names[1], self.close(pair)), ty, refs | d.refs)
+            return V(r.term, ty, d.binds + r.binds, r.refs)
+        return V("(Py.dictComp %s (fun (%s, %s) => %s))" % (d.term, names[0], names[1], pair.term), ty, d.binds, refs | d.refs)
+
     def ex_Lambda(self, node, env, want):
         self.fail(node, "lambda is supported only as `key=` of min / max")
 
@@ -875,6 +980,21 @@ class Fn:
             fn, refs = self.key_lambda(kw["key"], env, xs.ty[1])
             r = self.rebind("(Py.%sBy? %s %s)" % (f.id, xs.term, fn), xs.ty[1], refs | xs.refs)
             return V(r.term, xs.ty[1], xs.binds + r.binds, r.refs)
+        # sorted(xs, reverse=True) on integers (a set is first reduced to its distinct members)
+        if isinstance(f, ast.Name) and f.id == "sorted" and "sorted" not in env and len(node.args) == 1 and \
+                (not kw or (set(kw) == {"reverse"} and isinstance(kw["reverse"], ast.Constant) and isinstance(kw["reverse"].value, bool))):
+            xs = self.ex(node.args[0], env)
+            if xs.ty == OPAQUE:
+                return V.opaque()
+            if xs.ty not in (LIST(INT), SET(INT)):
+                self.fail(node, "sorted of %s" % (xs.ty,))
+            src = "(dedup %s)" % xs.term if xs.ty[0] == "set" else xs.term
+            fn = "Py.sortedDesc" if kw and kw["reverse"].value else "Py.sortedAsc"
+            return V("(%s %s)" % (fn, src), LIST(INT), xs.binds, xs.refs)
+        # len(other) for a parameter that is an object
+        if isinstance(f, ast.Name) and f.id == "len" and "len" not in env and len(node.args) == 1 and not kw and \
+                isinstance(node.args[0], ast.Name) and (node.args[0].id + ".__len__") in env:
+            return env[node.args[0].id + ".__len__"]
         # np.delete(arr, idx, axis=0)
         if isinstance(f, ast.Attribute) and isinstance(f.value, ast.Name) and f.value.id == "np" and "np" not in env and \
                 f.attr == "delete" and len(node.args) == 2 and set(kw) == {"axis"} and \
@@ -905,7 +1025,15 @@ class Fn:
                     return self.reduce_bool(node, obj, "&&" if f.attr == "all" else "||", "true" if f.attr == "all" else "false")
                 if f.attr == "reshape" and obj.np and obj.items is not None:
                     dims = node.args[0].elts if len(node.args) == 1 and isinstance(node.args[0], ast.Tuple) else node.args
-                    dims = [self.const_index(d) for d in dims]
+                    total = len(self.flat(obj))
+                    raw = [(-1 if isinstance(d, ast.UnaryOp) and isinstance(d.op, ast.USub) and isinstance(d.operand, ast.Constant)
+                            and d.operand.value == 1 else self.const_index(d)) for d in dims]
+                    known = 1
+                    for d in raw:
+                        known *= d if d != -1 else 1
+                    if raw.count(-1) > 1 or (raw.count(-1) == 1 and (known == 0 or total % known)):
+                        self.fail(node, "reshape%s of %d elements" % (tuple(raw), total))
+                    dims = [d if d != -1 else total // known for d in raw]
                     return self.reshape(node, obj, dims)
         # len(self)
         if isinstance(f, ast.Name) and f.id == "len" and "len" not in env and len(node.args) == 1 and \
@@ -970,6 +1098,8 @@ class Fn:
                     self.fail(node, "%s of %s" % (f.id, a.ty))
                 r = self.rebind("(Py.list%s? %s)" % (f.id.capitalize(), a.term), NAT, a.refs)
                 return V(r.term, NAT, a.binds + r.binds, r.refs)
+            if f.id in ("list", "tuple") and len(args) == 1 and args[0].items is not None and not args[0].np:
+                return args[0]
             if f.id in ("list", "tuple") and len(args) == 1 and isinstance(args[0].ty, tuple) and args[0].ty[0] in ("list", "set"):
                 a = args[0]
                 if a.ty[0] == "set":
@@ -988,6 +1118,8 @@ class Fn:
                 return V.opaque()
             if obj.ty == ("table", "decdict") and f.attr == "items" and not args:
                 return V("(Py.tableItems %s)" % obj.term, LIST(TUP(STR, NUM)))
+            if obj.ty == STR and f.attr == "strip" and not args:
+                return V("(Py.strStripWs %s)" % obj.term, STR, obj.binds, obj.refs)
             if obj.ty == STR and f.attr == "strip" and len(args) == 1 and args[0].ty == STR:
                 binds, refs = _join(obj, args[0])
                 return V("(Py.strStrip %s %s)" % (obj.term, args[0].term), STR, binds, refs)
@@ -1054,7 +1186,57 @@ class Fn:
 
             def mark(v):
                 return V(v.term, v.ty, v.binds, v.refs, None if v.items is None else [mark(x) for x in v.items], v.lit, np=v.items is not None)
+            if kw and not (isinstance(kw["dtype"], ast.Name) and kw["dtype"].id in ("int", "float")):
+                self.fail(node, "np.array(…, dtype=%s)" % ast.unparse(kw["dtype"]))
+            if kw and kw["dtype"].id == "int" and any(x.ty in (NUM, DECLIT) for x in self.flat(a)):
+                self.fail(node, "np.array(…, dtype=int) of non-integers (truncation is not modelled)")
             return mark(a)
+        if name == "meshgrid" and len(args) in (2, 3) and not kw and all(len(shape_of(a)) == 1 for a in args):
+            # default indexing='xy': the FIRST TWO axes are exchanged: out_k[j][i][l] = x_k[(i, j, l)[k]]
+            n = [len(a.items) for a in args]
+            sh = (n[1], n[0]) + tuple(n[2:])
+            outs = [self.build(sh, (lambda k: lambda t: args[k].items[(t[1], t[0]) + tuple(t[2:])][k] if False else
+                                    args[k].items[((t[1], t[0]) + tuple(t[2:]))[k]])(k)) for k in range(len(args))]
+            binds, refs = _join(*args)
+            return V("?", LIST(outs[0].ty), binds, refs, items=outs)          # a python list of arrays
+        if name == "matmul" and len(args) == 2 and not kw and len(shape_of(args[0])) == 2 and len(shape_of(args[1])) == 1 and \
+                shape_of(args[0])[1] == shape_of(args[1])[0]:
+            a, b = args
+
+            def op(o, x, y):
+                return self.binop_scalar(ast.BinOp(left=node, op=o, right=node, lineno=node.lineno, col_offset=node.col_offset), x, y)
+
+            def dot(row):
+                acc = None
+                for x, y in zip(row.items, b.items):
+                    p = op(ast.Mult(), x, y)
+                    acc = p if acc is None else op(ast.Add(), acc, p)
+                return acc
+            r = self.mkstatic([dot(row) for row in a.items])
+            r.binds = a.binds + b.binds + r.binds
+            return r
+        if name == "ceil" and len(args) == 1 and not kw:
+            a = args[0]
+
+            def ceil1(x):
+                x = self.coerce(node, x, NUM)
+                return V("(Py.ceil %s)" % x.term, INT, x.binds, x.refs)
+            if a.items is not None:
+                r = self.mkstatic([ceil1(x) if x.items is None else self.mkstatic([ceil1(y) for y in x.items]) for x in a.items])
+                r.binds = a.binds + r.binds
+                return r
+            return ceil1(a)
+        if name in ("maximum", "minimum") and len(args) == 2 and not kw:
+            fn = "max" if name == "maximum" else "min"
+
+            def mm(x, y):
+                ty = self.unify(node, [x.ty, y.ty])
+                x, y = self.coerce(node, x, ty), self.coerce(node, y, ty)
+                binds, refs = _join(x, y)
+                return V("(%s %s %s)" % (fn, x.term, y.term), ty, binds, refs)
+            r = self.elementwise(node, args[0], args[1], mm)
+            r.binds = args[0].binds + args[1].binds + r.binds
+            return r
         if name in ("prod", "sum") and len(args) == 1 and not kw and len(shape_of(args[0])) == 1 and args[0].items:
             a = args[0]
             acc = a.items[0]
@@ -1154,6 +1336,28 @@ class Fn:
                 e2[x] = V(nm, arr.ty, (), {nm})
                 return self.with_binds(k.binds + i.binds, ("let", nm, V("(Py.npSubWhereGt %s %s %s)" % (arr.term, k.term, i.term), arr.ty, (),
                                                                         arr.refs | k.refs | i.refs), self.block(rest, e2, conts, mode)))
+            # xs.sort(key=lambda m: e): a stable sort by an integer key
+            if isinstance(c, ast.Call) and isinstance(c.func, ast.Attribute) and c.func.attr == "sort" and not c.args and \
+                    isinstance(c.func.value, ast.Name) and {k.arg for k in c.keywords} == {"key"}:
+                x = c.func.value.id
+                xs = self.ex(c.func.value, env)
+                if not (isinstance(xs.ty, tuple) and xs.ty[0] == "list") or xs.items is not None:
+                    self.fail(s, "sort of %s" % (xs.ty,))
+                lam = c.keywords[0].value
+                if not isinstance(lam, ast.Lambda) or len(lam.args.args) != 1:
+                    self.fail(s, "key= must be a one-argument lambda")
+                a = lam.args.args[0].arg
+                e3 = dict(env)
+                e3[a] = static_param(self.lname(a), xs.ty[1])
+                kv = self.ex(lam.body, e3)
+                if kv.binds or kv.ty not in (INT, NAT):
+                    self.fail(s, "sort key of type %s" % (kv.ty,))
+                kv = self.coerce(s, kv, INT)
+                nm = self.lname(x)
+                e2 = dict(env)
+                e2[x] = V(nm, xs.ty, (), {nm})
+                return ("let", nm, V("(Py.sortByKey %s (fun %s => %s))" % (xs.term, self.lname(a), kv.term), xs.ty, (),
+                                     xs.refs | (kv.refs - {self.lname(a)})), self.block(rest, e2, conts, mode))
             # xs.append(v)  /  d[k].append(v)
             if isinstance(c, ast.Call) and isinstance(c.func, ast.Attribute) and c.func.attr == "append" and \
                     len(c.args) == 1 and not c.keywords:
@@ -1209,7 +1413,19 @@ class Fn:
         if isinstance(s, ast.Assign) and len(s.targets) == 1 and isinstance(s.targets[0], ast.Tuple) and \
                 all(isinstance(e, ast.Name) for e in s.targets[0].elts):
             # a, b = e    (e a tuple value)
-            v = self.ex(s.value, env)
+            sv = s.value
+            if isinstance(sv, ast.Call) and isinstance(sv.func, ast.Attribute) and sv.func.attr == "split" and len(sv.args) == 2 and \
+                    not sv.keywords and len(s.targets[0].elts) == 2 and isinstance(sv.args[0], ast.Constant) and \
+                    isinstance(sv.args[0].value, str) and len(sv.args[0].value) == 1 and isinstance(sv.args[1], ast.Constant) and sv.args[1].value == 1:
+                # a, b = s.split(c, 1): the text before and after the FIRST c; ValueError (none) when there is no c
+                base = self.ex(sv.func.value, env)
+                if base.ty == STR:
+                    r = self.rebind("(Py.strSplit1? %s '%s')" % (base.term, sv.args[0].value), TUP(STR, STR), base.refs)
+                    v = V(r.term, TUP(STR, STR), base.binds + r.binds, r.refs)
+                else:
+                    v = self.ex(s.value, env)
+            else:
+                v = self.ex(s.value, env)
             if v.ty == OPAQUE:
                 e2 = dict(env)
                 for e in s.targets[0].elts:
@@ -1640,6 +1856,14 @@ class Fn:
                 what = steps.pop(0)
                 if what == "test":
                     return out + [ast.copy_location(ast.Return(value=x.test), x)]
+                t = x.test
+                if isinstance(t, ast.Compare) and len(t.ops) == 1 and isinstance(t.ops[0], (ast.Is, ast.IsNot)) and \
+                        isinstance(t.left, ast.Name) and isinstance(t.comparators[0], ast.Constant) and t.comparators[0].value is None:
+                    # inside the branch where an optional parameter is not None it has its value
+                    some_branch = "orelse" if isinstance(t.ops[0], ast.Is) else "body"
+                    v = env.get(t.left.id)
+                    if v is not None and isinstance(v.ty, tuple) and v.ty[0] == "opt" and what == some_branch:
+                        self.narrow.append((t.left.id, v.ty[1]))
                 stmts = x.body if what == "body" else x.orelse
             elif kind == "for":
                 hits = [(i, x) for i, x in enumerate(stmts) if isinstance(x, ast.For) and text in ast.unparse(x.iter)]
@@ -1654,12 +1878,37 @@ class Fn:
                 self.locals_assigned -= set(self.cfg.get("loopvars", {}))
                 stmts = x.body
             elif kind == "assign":
+                text, _, must = text.partition(" containing ")
                 hits = [(i, x) for i, x in enumerate(stmts) if isinstance(x, ast.Assign) and len(x.targets) == 1 and
-                        ast.unparse(x.targets[0]) == text]
+                        ast.unparse(x.targets[0]) == text and must in ast.unparse(x.value)]
                 if len(hits) != 1:
                     raise Unsupported("%s: %s: %d assignments to %r" % (self.path, self.cfg["py"], len(hits), text))
                 i, x = hits[0]
-                return out + stmts[:i] + [ast.copy_location(ast.Return(value=x.value), x)]
+                val = x.value
+                while steps:                     # a sub-expression of the assigned value
+                    sel, arg = steps.pop(0)
+                    if sel == "callarg":         # the first argument of the unique call of a function whose name ends with `arg`
+                        calls = [n for n in ast.walk(val) if isinstance(n, ast.Call) and ast.unparse(n.func).endswith(arg)]
+                        if len(calls) != 1 or not calls[0].args:
+                            raise Unsupported("%s: %s: %d calls of %r in %s" % (self.path, self.cfg["py"], len(calls), arg, ast.unparse(val)))
+                        val = calls[0].args[0]
+                    elif sel == "eltcallee":     # the name of the function a comprehension applies to its variable, as a string
+                        if not (isinstance(val, ast.ListComp) and isinstance(val.elt, ast.Call) and len(val.elt.args) == 1 and
+                                isinstance(val.elt.args[0], ast.Name) and val.elt.args[0].id == ast.unparse(val.generators[0].target)
+                                and not val.elt.keywords):
+                            raise Unsupported("%s: %s: %s is not [f(x) for x in …]" % (self.path, self.cfg["py"], ast.unparse(val)))
+                        val = ast.copy_location(ast.Constant(value=ast.unparse(val.elt.func)), val)
+                    else:
+                        raise AssertionError(sel)
+                return out + stmts[:i] + [ast.copy_location(ast.Return(value=val), x)]
+            elif kind == "stmt":                 # the value of variable `var` right after the unique statement containing `text`
+                text, _, var = text.partition(" then ")
+                hits = [(i, x) for i, x in enumerate(stmts) if not isinstance(x, (ast.If, ast.For, ast.While, ast.With, ast.Try)) and
+                        text in ast.unparse(x)]
+                if len(hits) != 1:
+                    raise Unsupported("%s: %s: %d statements contain %r" % (self.path, self.cfg["py"], len(hits), text))
+                i, x = hits[0]
+                return out + stmts[:i + 1] + [ast.copy_location(ast.Return(value=ast.Name(id=var, ctx=ast.Load())), x)]
             else:
                 raise AssertionError(kind)
         raise Unsupported("%s: %s: the fragment path selects no expression" % (self.path, self.cfg["py"]))
@@ -1671,7 +1920,9 @@ class Fn:
         declared = dict(cfg["params"])
         defaults = dict(zip([a.arg for a in fn.args.args][len(fn.args.args) - len(fn.args.defaults):], fn.args.defaults))
         names = [a.arg for a in fn.args.args]
-        if cfg.get("cls"):
+        if cfg.get("cls") and cfg.get("inner"):
+            pass                      # a function nested in a method: its own parameters only
+        elif cfg.get("cls"):
             if names[:1] != (["cls"] if "classmethod" in cfg.get("decorators", []) else ["self"]):
                 raise Unsupported("%s: %s is not a method" % (self.path, cfg["py"]))
             env["self"] = V("self", OPAQUE)
@@ -1682,7 +1933,7 @@ class Fn:
                 params.append((nm, ty))
         for obj, attrs in cfg.get("objattrs", {}).items():   # attributes read from a parameter that is an object
             for attr, ty in attrs.items():
-                nm = "%s_%s" % (obj, attr)
+                nm = "%s_len" % obj if attr == "__len__" else "%s_%s" % (obj, attr)
                 env[obj + "." + attr] = static_param(nm, ty)
                 params.append((nm, ty))
         for c, ty in cfg.get("closure", []):            # variables of the enclosing function a nested function reads
@@ -1714,6 +1965,8 @@ class Fn:
                             len(d.elts) == len(ty[1]) and all(isinstance(e, ast.Constant) and isinstance(e.value, int) and e.value >= 0 for e in d.elts):
                         self.default_defs.append("/-- the default `%s=%s` of `%s` -/\ndef %s_default_%s : %s := (%s)" %
                                                  (p, ast.unparse(d), cfg["py"], cfg["lean"], p, lean_ty(ty), ", ".join(str(e.value) for e in d.elts)))
+                    elif isinstance(ty, tuple) and ty[0] == "dict" and isinstance(d, ast.Dict) and not d.keys:
+                        pass                                  # default {}: the empty map
                     elif isinstance(ty, tuple) and ty[0] == "fun":
                         pass                                  # a default key function is not translated: the caller passes one
                     elif not (isinstance(d, ast.Constant) and d.value is None and isinstance(ty, tuple) and ty[0] == "opt"):
@@ -1744,7 +1997,18 @@ class Fn:
         mode = "partial" if self.partial else "total"
         body_stmts = fn.body
         if cfg.get("fragment"):
+            self.narrow = []
             body_stmts = self.fragment_body(fn.body, cfg["fragment"], env)
+            for name, ty in self.narrow:
+                env[name] = static_param(self.lname(name), ty)
+                params = [(n, (ty if n == self.lname(name) else t)) for n, t in params]
+            if cfg.get("inputs") is not None:
+                # the fragment is translated for GIVEN values of these locals: the statements before it are not read
+                body_stmts = body_stmts[-(2 if cfg["fragment"][-1][0] == "stmt" else 1):]
+                for name, ty in cfg["inputs"].items():
+                    env[name] = static_param(self.lname(name), ty)
+                    params.append((self.lname(name), ty))
+                self.locals_assigned -= set(cfg["inputs"])
         ir = self.dce(self.block(body_stmts, env, [], mode))
         used = self.fv(ir)
         if self.slice:
@@ -1884,6 +2148,58 @@ FUNCTIONS += [
          doc="; `arr` is the list of rows of the 2-D index array; result = (re-indexed surviving rows, indices of the deleted rows)"),
 ]
 
+_MASSLINE = TUP(INT, STR, OPT(STR))
+
+FUNCTIONS += [
+    # ---- fourth batch: the lines the repairs of 2026-09-29 introduced
+    dict(file="mofun/atoms.py", cls="Atoms", py="__delitem__", lean="delitemSortedIndices", slice=True, partial=True,
+         fragment=[("assign", "sorted_indices")], params=[("indices", LIST(INT))], attrs={"__len__": NAT}, ret=LIST(INT),
+         doc=" (FRAGMENT: the index list handed to the term code, `sorted({i % num_atoms for i in indices}, reverse=True)`; "
+             "`none` = ZeroDivisionError)"),
+    dict(file="mofun/atoms.py", cls="Atoms", py="extend", inner="plain_index", lean="plainIndex", params=[("i", INT), ("n", NAT)],
+         ret=INT, partial=True, doc="; `none` = the IndexError it raises"),
+    dict(file="mofun/atoms.py", cls="Atoms", py="extend", lean="extendIndexMap", slice=True, partial=True,
+         fragment=[("assign", "structure_index_map")], params=[("structure_index_map", DICT(INT, INT))],
+         attrs={"__len__": NAT}, objattrs={"other": {"__len__": NAT}}, calls={"plain_index": "plainIndex"}, ret=DICT(INT, INT),
+         doc=" (FRAGMENT: the normalised structure_index_map, a dict comprehension over the given one; `none` = IndexError)"),
+    dict(file="mofun/atoms.py", cls="Atoms", py="extend", lean="extendPadOffsets", slice=True,
+         fragment=[("if", "offsets is None"), "orelse", ("assign", "offsets")], params=[("offsets", OPT(LIST(NAT)))],
+         attrs={}, inputs={}, ret=LIST(NAT),
+         doc=" (FRAGMENT: explicit offsets padded to five entries, `tuple(offsets) + (0,) * (5 - len(offsets))`)"),
+    dict(file="mofun/cli/mofun_cli.py", py="mofun_cli", lean="mofunCliMicRepls", slice=True, decorators="any",
+         fragment=[("if", "mic is not None"), "body", ("if", "cell_is_orthorhombic"), "body", ("assign", "repls")],
+         params=[("mic", OPT(NUM))], abstractions={"atoms.cell": ("atoms_cell", MAT3)}, inputs={}, ret=TUP(INT, INT, INT),
+         doc=" (FRAGMENT: the minimum-image replication factors, numpy expression expanded over the diagonal of the cell)"),
+    dict(file="mofun/atoms.py", cls="Atoms", py="load_lmpdat", lean="lmpSortMasses", slice=True, decorators=["classmethod"],
+         fragment=[("stmt", "masses.sort then masses")], params=[], attrs={}, inputs={"masses": LIST(_MASSLINE)}, ret=LIST(_MASSLINE),
+         doc=" (FRAGMENT: `masses.sort(key=lambda m: m[0])` for a given list of (type id, mass text, label) entries)"),
+    dict(file="mofun/atoms.py", cls="Atoms", py="load_lmpdat", lean="lmpHasComment", slice=True, decorators=["classmethod"],
+         fragment=[("for", "f"), ("if", "in unprocessed_line"), "test"], params=[], attrs={}, inputs={"unprocessed_line": STR}, ret=BOOL,
+         doc=" (FRAGMENT: does a data line carry a comment)"),
+    dict(file="mofun/atoms.py", cls="Atoms", py="load_lmpdat", lean="lmpLineBeforeComment", slice=True, partial=True,
+         decorators=["classmethod"], fragment=[("for", "f"), ("if", "in unprocessed_line"), "body", ("stmt", ".split('#', 1) then line")],
+         params=[], attrs={}, inputs={"unprocessed_line": STR}, ret=STR,
+         doc=" (FRAGMENT: the data part of a line with a comment: the text before the FIRST `#`; `none` = no `#`)"),
+    dict(file="mofun/atoms.py", cls="Atoms", py="load_lmpdat", lean="lmpCommentOf", slice=True, partial=True,
+         decorators=["classmethod"], fragment=[("for", "f"), ("if", "in unprocessed_line"), "body", ("stmt", ".split('#', 1) then comment")],
+         params=[], attrs={}, inputs={"unprocessed_line": STR}, ret=STR,
+         doc=" (FRAGMENT: the text after the FIRST `#`, before it is stripped)"),
+    dict(file="mofun/atoms.py", cls="Atoms", py="load_cml", lean="cmlAtomPattern", slice=True, decorators=["classmethod"],
+         fragment=[("assign", "atom_dicts"), ("callarg", "findall")], params=[], attrs={}, inputs={}, ret=STR,
+         doc=" (FRAGMENT: the ElementPath pattern of the atom lookup)"),
+    dict(file="mofun/atoms.py", cls="Atoms", py="load_cml", lean="cmlBondPattern", slice=True, decorators=["classmethod"],
+         fragment=[("assign", "bond_dicts"), ("callarg", "findall")], params=[], attrs={}, inputs={}, ret=STR,
+         doc=" (FRAGMENT: the ElementPath pattern of the bond lookup)"),
+    dict(file="mofun/mofun.py", py="uc_neighbor_offsets", lean="ucNeighborOffsets", params=[("uc_vectors", MAT3)], ret=LIST(VEC3),
+         doc="; `np.meshgrid(…).T.reshape(-1, 1, 3)` and `np.matmul(uc_vectors.T, mult[0])` are expanded over the 27 multipliers"),
+    dict(file="mofun/atoms.py", cls="Atoms", py="load_p1_cif", lean="cifChargeReader", slice=True, decorators=["classmethod"],
+         fragment=[("if", "_atom_site_charge"), "body", ("assign", "charges"), ("eltcallee", None)], params=[], attrs={}, inputs={}, ret=STR,
+         doc=" (FRAGMENT: the name of the function that reads one entry of the charge column)"),
+    dict(file="mofun/atoms.py", cls="Atoms", py="load_p1_cif", lean="cifCoordReader", slice=True, decorators=["classmethod"],
+         fragment=[("assign", "x"), ("eltcallee", None)], params=[], attrs={}, inputs={}, ret=STR,
+         doc=" (FRAGMENT: the name of the function that reads one coordinate)"),
+]
+
 PRELUDE = r'''/- GENERATED on every run by harness/gen_code.py from the sources of /repo — do not edit.
    Python → Lean translation of a few small pure functions; the supported subset is documented in gen_code.py.
    `Mofun.Generated.Py` is the fixed prelude (the meaning of the python primitives the translation uses);
@@ -2005,6 +2321,56 @@ def enumerate {α} (xs : List α) : List (Nat × α) := enumerateFrom 0 xs
 
 /-- `np.delete(arr, idx, axis=0)` for indices inside the array -/
 def npDelete {α} (arr : List α) (idx : List Nat) : List α := deleteIdx arr idx
+
+/-- python `sorted(xs, reverse=True)` on ints (insertion sort: structurally recursive) -/
+def insertDesc (x : Int) : List Int → List Int
+  | [] => [x]
+  | y :: ys => if x ≥ y then x :: y :: ys else y :: insertDesc x ys
+def sortedDesc (xs : List Int) : List Int := xs.foldr insertDesc []
+/-- python `sorted(xs)` on ints -/
+def insertAsc (x : Int) : List Int → List Int
+  | [] => [x]
+  | y :: ys => if x ≤ y then x :: y :: ys else y :: insertAsc x ys
+def sortedAsc (xs : List Int) : List Int := xs.foldr insertAsc []
+
+/-- `xs.sort(key=f)` with an integer key: ascending, entries with equal keys keep their order (python's sort is stable) -/
+def insertByKey {α} (key : α → Int) (x : α) : List α → List α
+  | [] => [x]
+  | y :: ys => if key x ≤ key y then x :: y :: ys else y :: insertByKey key x ys
+def sortByKey {α} (xs : List α) (key : α → Int) : List α := xs.foldr (insertByKey key) []
+
+/-- python `xs * n` on a list: `n` copies one after the other, none for `n ≤ 0` -/
+def listRepeat {α} (xs : List α) (n : Int) : List α := (List.replicate n.toNat xs).flatten
+
+/-- `np.ceil(x)` as an integer -/
+def ceil (x : Rat) : Int := Rat.ceil x
+
+/-- `d[k] = v` on an insertion-ordered dict: an existing key keeps its position and takes the new value -/
+def dictInsert {κ β} [DecidableEq κ] : List (κ × β) → κ → β → List (κ × β)
+  | [], k, v => [(k, v)]
+  | (k', v') :: rest, k, v => if k' = k then (k, v) :: rest else (k', v') :: dictInsert rest k v
+/-- `{key(a, b): val(a, b) for a, b in d.items()}` -/
+def dictComp {κ β κ' β'} [DecidableEq κ'] (d : List (κ × β)) (f : κ × β → κ' × β') : List (κ' × β') :=
+  d.foldl (fun acc p => dictInsert acc (f p).1 (f p).2) []
+/-- the same when computing a key or a value may raise -/
+def dictCompM? {κ β κ' β'} [DecidableEq κ'] (d : List (κ × β)) (f : κ × β → Option (κ' × β')) : Option (List (κ' × β')) :=
+  d.foldl (fun acc p => match acc, f p with
+    | some m, some kv => some (dictInsert m kv.1 kv.2)
+    | _, _ => none) (some [])
+
+/-- `a, b = s.split(c, 1)`: the text before and after the FIRST `c`; `none` = ValueError (no `c`: one part only) -/
+def splitAtFirst (c : Char) : List Char → List Char × Option (List Char)
+  | [] => ([], none)
+  | x :: xs => if x = c then ([], some xs) else ((x :: (splitAtFirst c xs).1), (splitAtFirst c xs).2)
+def strSplit1? (s : String) (c : Char) : Option (String × String) :=
+  match splitAtFirst c s.toList with
+  | (a, some b) => some (String.ofList a, String.ofList b)
+  | (_, none) => none
+/-- python `str.isspace` on ASCII: blank, `\t \n \v \f \r`, `\x1c … \x1f` -/
+def isWs (c : Char) : Bool := c.val == 32 || (9 ≤ c.val && c.val ≤ 13) || (28 ≤ c.val && c.val ≤ 31)
+/-- `s.strip()`: without the leading and the trailing blanks -/
+def strStripWs (s : String) : String :=
+  String.ofList (((s.toList.dropWhile isWs).reverse.dropWhile isWs).reverse)
 
 /-- `np.subtract(arr, k, out=arr, where=arr > i)` on a 2-D index array -/
 def npSubWhereGt (arr : List (List Nat)) (k i : Nat) : List (List Nat) :=
